@@ -23,7 +23,8 @@ RULE = (
     "num_batches=k => B=min(k,N) and sizes differ by <= 1, and "
     "crop.batchsize/num_batches/num_sown_batches agree with that before and "
     "after re-creating the Crop from disk; a third of the cases sow the same "
-    "work a second time (same object / re-created Crop) and everything is "
+    "work a second time (same object / re-created Crop / Crop reloaded by "
+    "name only / the same numbers re-typed as floats, compared type-exactly) and everything is "
     "checked again; farmer cases also hand the same constants object to the "
     "crop of a second farmer with other stored constants/resources and "
     "compare with that farmer's direct run; a quarter of the grids are "
@@ -100,6 +101,8 @@ def run_case(case):
                                combos=(tuple(combos.items()) if combos
                                        else None),
                                constants=consts, verbosity=0, **skw)
+        typed_flag = [False]
+
         def check_disk(crop, stage):
             # ---- what is on disk
             ids = crops.batch_ids(root, "c7")
@@ -120,7 +123,7 @@ def run_case(case):
                                   constants={**extra, **consts}, verbosity=0)
             direct = [models.canon_kw(kw) for kw in models.LOG]
             require(len(direct) == N, "harness", f"{len(direct)} != N={N}")
-            if case.get("np_dtype"):
+            if case.get("np_dtype") or typed_flag[0]:
                 def typed(kws):
                     return collections.Counter(
                         tuple(sorted((k, type(v).__name__,
@@ -240,6 +243,19 @@ def run_case(case):
                     # a new object over the sown folder picks the batching up
                     # from disk
                     crop = mk()
+                elif resow == "reload":
+                    # only name and directory are known: function and farmer
+                    # come from the crop's own files
+                    crop = x.Crop(name="c7", parent_dir=root)
+                elif resow == "retyped":
+                    # the same numbers, now as floats (1 -> 1.0): the new
+                    # settings are what a direct run of the new inputs passes
+                    typed_flag[0] = True
+                    if cases is None and not case.get("np_dtype"):
+                        combos = {a: [float(v) for v in vs]
+                                  for a, vs in combos.items()}
+                    consts = {k: (float(v) if isinstance(v, int) else v)
+                              for k, v in consts.items()}
                 if cases is None:
                     crop.sow_combos(combos, constants=consts,
                                     shuffle=shuffle, verbosity=0)
@@ -285,7 +301,8 @@ def enumerate_cases(tier, seed):
                     # every (N, spec, realisation) is sown again by the same
                     # object and by a re-created one; which of the twelve
                     # variants does it rotates
-                    rs = [None, "same", "recreate"][(i + j + v + N) % 3]
+                    rs = [None, "same", "recreate", "reload",
+                          "retyped"][(i + j + v + N) % 5]
                     c = {"N": N, "real": real, "shape": list(shape),
                          "spec": spec, "shuffle": sh, "where": where,
                          "farmer": farmer, "resow": rs}
